@@ -492,7 +492,7 @@ def run(ck):
     import core as _core13
     import rules.c18 as c18
     ck.rule('R17.13', 'a QML component resolves its root type in the same scope, in the same order, as a source document does (shared with C18)')
-    s18 = _core13.Shared(ck, 'R17.13', lambda r, k: r == 'R18.4' and (k.startswith('own-directory-imported') or k.startswith('base-directory-imported') or k == 'component-name-and-super' or k.startswith('every-import-kind')), 'C18:',
+    s18 = _core13.Shared(ck, 'R17.13', lambda r, k: r == 'R18.4' and (k.startswith('own-directory-imported') or k.startswith('base-directory-imported') or k.startswith('import-stack-') or k == 'component-name-and-super' or k.startswith('every-import-kind')), 'C18:',
                          ' [the super class of a component is whatever its root type name resolves to: the order of the import stack is part of the class graph]')
     c18.run(s18)
     ck.floor('R17.13', s18.count, 4, 'shared C18 R18.4 obligations')
